@@ -7,9 +7,9 @@ func init() {
 			{Pkg: "batchwriter", Harness: "writer", Weight: 1},
 		},
 		QuickS: 25, ThoroughS: 900,
-		Rule:  "each run draws queue size 0-3, batch size 1-3, batch timeout {5ms,100ms,1s}, 1-3 objects, 1-4 producers x 1-4 enqueues (growing versions, optional sleeps on the fake clock), 0-2 Flush callers, one StopBatchWriter caller at a drawn moment, and a schedule incl. clock stalls; the writer goroutine is parked at birth and scheduled like any task; distinct = distinct (config, schedule, event log) hash; non-trivial = at least two recorded decisions",
-		Real:  []string{"kvstore.BatchedWriter, BatchCollector", "kvstore/mapdb (store the batches commit to)", "runtime/timeutil"},
-		Stubs: append([]string{"BatchWriteObject implementations (harness: id, version, test-and-set scheduled flag)"}, commonStubs...),
+		Rule:   "each run draws queue size 0-3, batch size 1-3, batch timeout {5ms,100ms,1s}, 1-3 objects, 1-4 producers x 1-4 enqueues (growing versions, optional sleeps on the fake clock), 0-2 Flush callers, one StopBatchWriter caller at a drawn moment, and a schedule incl. clock stalls; the writer goroutine is parked at birth and scheduled like any task; distinct = distinct (config, schedule, event log) hash; non-trivial = at least two recorded decisions",
+		Real:   []string{"kvstore.BatchedWriter, BatchCollector", "kvstore/mapdb (store the batches commit to)", "runtime/timeutil"},
+		Stubs:  append([]string{"BatchWriteObject implementations (harness: id, version, test-and-set scheduled flag)"}, commonStubs...),
 		Assume: []string{"one task executes at a time; context switches only at sync/atomic/channel/select/go/sleep operations", "BatchWriteScheduled is a test-and-set as in the historical callers; the producer sets the object's version before Enqueue", "bounded: <=4 producers x <=4 enqueues, <=3 objects"},
 	})
 }
